@@ -154,6 +154,8 @@ def main(argv=None):
     filt = (lambda p, k: re.search(a.kernel, k.name)) if a.kernel else None
     results = E.run_kernels(corpus, builds, list(cfg['variants'].keys()), cfg['pairs'], cfg['mode'], tier, seed, filt)
 
+    aux = aux_roundtrip_builds(cfg) if pid == 'C05' and not a.kernel else None
+
     known = load_known_findings()
     violations = 0
     engine_errors = 0
@@ -175,6 +177,8 @@ def main(argv=None):
         for (pi, vn), b in builds.items():
             if not b.ok and not getattr(b, 'timed_out', False) and builds.get((pi, ref_names[pid])) and builds[(pi, ref_names[pid])].ok:
                 build_violations.append({'pkg': corpus[pi].name, 'variant': vn, 'log': b.log[-1500:]})
+    if aux:
+        build_violations += aux['violations']
     known_printed = set()
     for r in results:
         for v in r['violations']:
@@ -244,6 +248,8 @@ def main(argv=None):
     }
     if cfg.get('passes'):
         coverage['ir_passes'] = cfg['passes']
+    if aux:
+        coverage['auxiliary_programs'] = aux['report']
     assumptions = [
         'SV opcode semantics (sv/symvm.py) transcribed from fuel-vm 0.66.4; validated on this run by replaying fixed inputs and every solver model on the real interpreter',
         'gas is sufficient; transaction layout (one coin input, script length) does not influence program semantics',
@@ -262,6 +268,85 @@ def main(argv=None):
         print(f'ENGINE-ERROR property={pid}: {engine_errors} kernels with engine/replay mismatches (see stderr)')
         return 2
     return 0
+
+
+AUX_PROGRAMS = {
+    'aux_call_script': """script;
+abi MyC { fn get(x: u64) -> u64; #[payable] fn pay(a: (u64, bool), b: b256) -> b256; }
+fn main(x: u64) -> u64 {
+    let c = abi(MyC, 0x00000000000000000000000000000000000000000000000000000000000000a1);
+    let r = c.get(x);
+    let h = c.pay { gas: 10000, coins: 0, asset_id: b256::zero() }((r, true), b256::zero());
+    if h == b256::zero() { r } else { r + 1 }
+}
+""",
+    'aux_contract': """contract;
+use std::hash::*;
+abi MyC {
+    #[storage(read, write)] fn bump(x: u64) -> u64;
+    #[storage(read)] fn get_b() -> b256;
+    fn pure(x: u8, y: (u64, bool)) -> u64;
+    #[payable] fn pay() -> u64;
+}
+configurable { STEP: u64 = 3, NAME: str[4] = __to_str_array("abcd") }
+storage { counter: u64 = 7, b: b256 = 0x0000000000000000000000000000000000000000000000000000000000000001, m: StorageMap<u64, u64> = StorageMap {} }
+impl MyC for Contract {
+    #[storage(read, write)] fn bump(x: u64) -> u64 {
+        let c = storage.counter.read() + x * STEP;
+        storage.counter.write(c);
+        storage.m.insert(x, c);
+        log(c);
+        storage.m.get(x).try_read().unwrap_or(0)
+    }
+    #[storage(read)] fn get_b() -> b256 { storage.b.read() }
+    fn pure(x: u8, y: (u64, bool)) -> u64 { if y.1 { x.as_u64() + y.0 } else { 0 } }
+    #[payable] fn pay() -> u64 { std::context::msg_amount() + std::context::this_balance(AssetId::base()) }
+}
+#[fallback]
+fn fallback() -> u64 { 77 }
+""",
+    'aux_predicate': """predicate;
+fn check(mutex: u64, retx: u64) -> bool { mutex + 1 == retx }
+fn main(mutex: u64, b: b256) -> bool {
+    let mut global = mutex;
+    global += 1;
+    check(mutex, global) && b != b256::zero() && std::tx::tx_script_length().unwrap_or(0) == 0
+}
+""",
+}
+
+
+def aux_roundtrip_builds(cfg):
+    """C05, auxiliary and enumerated (not solver-decided): program kinds SV cannot execute (a script
+    calling a contract, a contract with storage/configurables/fallback, a predicate) are compiled with
+    and without the round trip; the re-parsed module must still be accepted by the verifier and the
+    backend.  Identical bytecode is recorded; different bytecode is inconclusive, not a violation."""
+    from concurrent.futures import ThreadPoolExecutor
+    from .common import build_package
+    jobs = [(n, vn) for n in AUX_PROGRAMS for vn in cfg['variants']]
+
+    def one(j):
+        n, vn = j
+        prof, env = cfg['variants'][vn]
+        return j, build_package(n, AUX_PROGRAMS[n], prof, env)
+
+    with ThreadPoolExecutor(max_workers=8) as ex:
+        built = dict(ex.map(one, jobs))
+    report, violations = [], []
+    for n in AUX_PROGRAMS:
+        for ref, vn in cfg['pairs']:
+            b0, b1 = built[(n, ref)], built[(n, vn)]
+            if getattr(b0, 'timed_out', False) or getattr(b1, 'timed_out', False):
+                report.append({'program': n, 'variant': vn, 'result': 'build timed out'})
+            elif not b0.ok:
+                report.append({'program': n, 'variant': vn, 'result': 'reference build fails'})
+            elif not b1.ok:
+                report.append({'program': n, 'variant': vn, 'result': 'round-tripped module rejected'})
+                violations.append({'pkg': n, 'variant': vn, 'log': b1.log[-1500:]})
+            else:
+                report.append({'program': n, 'variant': vn,
+                               'result': 'bytecode identical' if b0.bytecode == b1.bytecode else 'bytecode differs (inconclusive)'})
+    return {'report': report, 'violations': violations}
 
 
 def replay(pid, path):
